@@ -138,201 +138,221 @@ def check(ctx: Ctx) -> None:
     if n52 < 3:
         raise AnalysisError(f"R5.2: only {n52} optional keys found (floor 3)")
 
-    # ---------------- R5.3 ---------------------------------------------------------------
-    _reversal(ctx, model)
-
-    # ---------------- R5.4 ---------------------------------------------------------------
-    from ..prov import Resolver
-    for qual in ("DataSet.low_pass", "DataSet.high_pass"):
-        fi = model.fi(DS, qual)
-        R = Resolver(fi.node)
-        sm = [c for c in calls_in(fi.node) if dotted(c.func) == "self.set_mask"]
-        if len(sm) != 1 or len(sm[0].args) != 1:
-            raise AnalysisError(f"{qual}: the call self.set_mask(<mask>) was not found")
-        arg = sm[0].args[0]
-        # (a) index space: the frequencies that are compared with the cutoff are the unfiltered view
-        views = [c for c in calls_in(fi.node) if dotted(c.func) == "self.get_frequencies"]
-        direct = [n for n in walk_ordered(fi.node) if isinstance(n, ast.Attribute) and n.attr == "_frequencies" and dotted(n.value) == "self"]
-        ctx.instance("R5.4", f"{qual}: index space of the cutoff comparison")
-        if not views and not direct:
-            raise AnalysisError(f"{qual}: no read of the frequencies found")
-        bad_view = None
-        for c in views:
-            m = [k.value for k in c.keywords if k.arg == "masked"] + list(c.args)
-            if not (m and isinstance(m[0], ast.Constant) and m[0].value is None):
-                bad_view = c
-        if bad_view is not None:
-            ctx.violation("R5.4", f"{qual}:index-space", DS, bad_view,
-                          f"{qual} derives mask indices from {norm(bad_view)}: that view is filtered, so its positions do not address the stored points")
-        else:
+    # ---------------- R5.9 (state machine) -------------------------------------------------------
+    # The clauses R5.3-R5.5 are decided together by bounded explicit-state exploration of the DataSet on its own AST
+    # (sa/checks/_c05_model.py); the shape rules below are the fallback when a construct is outside the interpreter.
+    ctx.rule("R5.9", "state machine: after construction from descending or ascending input with any mask, and after every sequence (bounded) of set_mask / low_pass / high_pass / subtract_impedances, the mask and the masked/unmasked/full views of frequencies and impedances are those of the reference model")
+    modelled = False
+    try:
+        from ._c05_model import run as _model_run
+        probs_m, n_states, n_steps = _model_run(ctx, model, 3 if ctx.tier == "thorough" else 2)
+        modelled = True
+        ctx.instance("R5.9", f"DataSet explored from {n_states} initial states (1..3 points, both input orders, every initial mask), {n_steps} operation steps in sequences of length {3 if ctx.tier == 'thorough' else 2}")
+        if not probs_m:
             ctx.ok()
-        # (b) filters only add to the current mask
-        ctx.instance("R5.4", f"{qual}: the new mask extends the current one")
-        t = R.text(arg, sm[0])
-        if isinstance(arg, ast.Name):
-            from ..prov import assignments
-            b_ = [x for x in assignments(fi.node, arg.id) if x[2] == "assign"]
-            t = norm(b_[-1][0].value) if b_ else t
-        if "self.get_mask()" in t or "self._mask" in t:
-            stores = [n for n in walk_ordered(fi.node) if isinstance(n, ast.Assign) and isinstance(n.targets[0], ast.Subscript)
-                      and isinstance(arg, ast.Name) and norm(n.targets[0].value) == arg.id]
-            if all(norm(n.value) == "True" for n in stores):
-                ctx.ok()
-            else:
-                ctx.violation("R5.4", f"{qual}:unmasks", DS, stores[0], f"{qual} writes values other than True into the mask: a pass filter must never unmask points")
         else:
-            # a partial dictionary is merged by set_mask (update) — unless it is empty, which set_mask treats as "clear everything"
-            conds = flatten_conditions(dominating_conditions(sm[0]))
-            an = norm(arg)
-            guarded = any(pol and norm(c) in (an, f"len({an}) > 0", f"len({an}) != 0", f"len({an}) >= 1") for c, pol in conds) or \
-                any((not pol) and norm(c) in (f"len({an}) == 0", f"not {an}") for c, pol in conds)
-            smf = model.fi(DS, "DataSet.set_mask")
-            clears_on_empty = any(isinstance(n, ast.If) and norm(n.test).replace(" ", "") in ("len(mask)==0", "notmask") and always_exits_(n.body)
-                                  for n in walk_ordered(smf.node))
-            if guarded or not clears_on_empty:
-                ctx.ok()
-            else:
-                ctx.violation("R5.4", f"{qual}:empty-selection-clears-mask", DS, sm[0],
-                              f"{qual} passes {t[:60]} to set_mask: it is not built from the current mask and may be empty, and set_mask({{}}) clears the "
-                              f"whole mask — a filter that selects nothing unmasks previously masked points")
+            ctx.violation("R5.9", "DataSet:state-machine", DS, model.fi(DS, "DataSet.__init__").node,
+                          "frequencies, impedances and mask do not stay together — " + probs_m[0])
+        ctx.extra_cov["state_machine"] = {"initial_states": n_states, "steps": n_steps}
+    except AnalysisError as e:
+        ctx.note(f"DataSet not interpretable ({e}); falling back to the shape rules R5.3-R5.5")
+    if not modelled:
+        # ---------------- R5.3 ---------------------------------------------------------------
+        _reversal(ctx, model)
 
-    # ---------------- R5.5 ---------------------------------------------------------------
-    preds = {}
-    flags: Dict[str, Set[str]] = {}
-    ds_methods = {n: m.node for n, m in model.classes[f"{DS}:DataSet"].methods.items()}
+        # ---------------- R5.4 ---------------------------------------------------------------
+        from ..prov import Resolver
+        for qual in ("DataSet.low_pass", "DataSet.high_pass"):
+            fi = model.fi(DS, qual)
+            R = Resolver(fi.node)
+            sm = [c for c in calls_in(fi.node) if dotted(c.func) == "self.set_mask"]
+            if len(sm) != 1 or len(sm[0].args) != 1:
+                raise AnalysisError(f"{qual}: the call self.set_mask(<mask>) was not found")
+            arg = sm[0].args[0]
+            # (a) index space: the frequencies that are compared with the cutoff are the unfiltered view
+            views = [c for c in calls_in(fi.node) if dotted(c.func) == "self.get_frequencies"]
+            direct = [n for n in walk_ordered(fi.node) if isinstance(n, ast.Attribute) and n.attr == "_frequencies" and dotted(n.value) == "self"]
+            ctx.instance("R5.4", f"{qual}: index space of the cutoff comparison")
+            if not views and not direct:
+                raise AnalysisError(f"{qual}: no read of the frequencies found")
+            bad_view = None
+            for c in views:
+                m = [k.value for k in c.keywords if k.arg == "masked"] + list(c.args)
+                if not (m and isinstance(m[0], ast.Constant) and m[0].value is None):
+                    bad_view = c
+            if bad_view is not None:
+                ctx.violation("R5.4", f"{qual}:index-space", DS, bad_view,
+                              f"{qual} derives mask indices from {norm(bad_view)}: that view is filtered, so its positions do not address the stored points")
+            else:
+                ctx.ok()
+            # (b) filters only add to the current mask
+            ctx.instance("R5.4", f"{qual}: the new mask extends the current one")
+            t = R.text(arg, sm[0])
+            if isinstance(arg, ast.Name):
+                from ..prov import assignments
+                b_ = [x for x in assignments(fi.node, arg.id) if x[2] == "assign"]
+                t = norm(b_[-1][0].value) if b_ else t
+            if "self.get_mask()" in t or "self._mask" in t:
+                stores = [n for n in walk_ordered(fi.node) if isinstance(n, ast.Assign) and isinstance(n.targets[0], ast.Subscript)
+                          and isinstance(arg, ast.Name) and norm(n.targets[0].value) == arg.id]
+                if all(norm(n.value) == "True" for n in stores):
+                    ctx.ok()
+                else:
+                    ctx.violation("R5.4", f"{qual}:unmasks", DS, stores[0], f"{qual} writes values other than True into the mask: a pass filter must never unmask points")
+            else:
+                # a partial dictionary is merged by set_mask (update) — unless it is empty, which set_mask treats as "clear everything"
+                conds = flatten_conditions(dominating_conditions(sm[0]))
+                an = norm(arg)
+                guarded = any(pol and norm(c) in (an, f"len({an}) > 0", f"len({an}) != 0", f"len({an}) >= 1") for c, pol in conds) or \
+                    any((not pol) and norm(c) in (f"len({an}) == 0", f"not {an}") for c, pol in conds)
+                smf = model.fi(DS, "DataSet.set_mask")
+                clears_on_empty = any(isinstance(n, ast.If) and norm(n.test).replace(" ", "") in ("len(mask)==0", "notmask") and always_exits_(n.body)
+                                      for n in walk_ordered(smf.node))
+                if guarded or not clears_on_empty:
+                    ctx.ok()
+                else:
+                    ctx.violation("R5.4", f"{qual}:empty-selection-clears-mask", DS, sm[0],
+                                  f"{qual} passes {t[:60]} to set_mask: it is not built from the current mask and may be empty, and set_mask({{}}) clears the "
+                                  f"whole mask — a filter that selects nothing unmasks previously masked points")
 
-    def self_reads(fn_node, seen=None) -> Set[str]:
-        seen = seen if seen is not None else set()
-        out: Set[str] = set()
-        for x in ast.walk(fn_node):
-            if isinstance(x, ast.Attribute) and dotted(x.value) == "self":
-                if x.attr in ds_methods and x.attr not in seen:
-                    seen.add(x.attr)
-                    out |= self_reads(ds_methods[x.attr], seen)
-                elif x.attr not in ds_methods:
-                    out.add(x.attr)
-        return out
-    core = {"_frequencies", "_impedances", "_mask"}
-    getters = (("DataSet.get_frequencies", "_frequencies"), ("DataSet.get_impedances", "_impedances"))
-    reads = {q: self_reads(model.fi(DS, q).node) for q, _ in getters}
-    if all(r <= core for r in reads.values()):
-        # the getters depend on the mask only through look-ups: interpret them (AST, sa.miniinterp) on every mask over up to
-        # four points (each key absent / False / True) and both selections, and compare with the specification
-        from itertools import product
-        from ..miniinterp import InterpRaise, Mini, Obj
-        from ..nplite import NP_STUBS, NArr
-        stubs = dict(NP_STUBS)
-        stubs.update({"_is_boolean": lambda x: isinstance(x, bool), "NDArray": None})
-        for qual, attr in getters:
-            fi = model.fi(DS, qual)
-            d = fi.node.args.defaults
-            ctx.instance("R5.5", f"{qual}: default of `masked` is False")
-            if not (len(d) == 1 and isinstance(d[0], ast.Constant) and d[0].value is False):
-                ctx.violation("R5.5", f"{qual}:default", DS, fi.node, f"{qual}: default of `masked` is not False (analyses rely on it to exclude masked points)")
-            else:
-                ctx.ok()
-            witness = None
-            n_w = 0
-            for n in range(0, 5):
-                for combo in product(("absent", False, True), repeat=n):
-                    mask = {i: v for i, v in enumerate(combo) if v != "absent"}
-                    for masked in (None, False, True):
-                        n_w += 1
-                        me = Obj(Mini(stubs), ds_methods, {"_frequencies": NArr(("f", i) for i in range(n)), "_impedances": NArr(("Z", i) for i in range(n)), "_mask": dict(mask)})
-                        try:
-                            got = list(Mini(stubs).call_function(fi.node, {"self": me, "masked": masked}))
-                        except InterpRaise as e:
-                            got = e.kind
-                        tag = "f" if attr == "_frequencies" else "Z"
-                        want = [(tag, i) for i in range(n) if masked is None or mask.get(i, False) == masked]
-                        if got != want and witness is None:
-                            witness = (mask, masked, got, want)
-            ctx.instance("R5.5", f"{qual}: selection on all {n_w} (mask, masked) combinations over 0..4 points")
-            if witness is None:
-                ctx.ok()
-            else:
-                mask, masked, got, want = witness
-                ctx.violation("R5.5", "getters:predicate-mismatch" if isinstance(got, list) else f"{qual}:raises", DS, fi.node,
-                              f"{qual}(masked={masked}) with mask {mask} returns the points {got} instead of {want}: frequencies and impedances no longer select the same points")
-        flags = {q: set() for q, _ in getters}
-    else:
-        for qual, attr in getters:
-            fi = model.fi(DS, qual)
-            shape = _filter_shape(fi.node, attr)
-            if shape is None:
-                raise AnalysisError(f"{qual}: filter expression not recognised (neither a comprehension over enumerate(self.{attr}) nor boolean indexing of self.{attr})")
-            preds[qual], flags[qual], src_ok, elt_ok = shape
-            ctx.instance("R5.5", f"{qual}: predicate {preds[qual]}")
-            if not src_ok:
-                ctx.violation("R5.5", f"{qual}:source", DS, fi.node, f"{qual} does not filter self.{attr}")
-            if not elt_ok:
-                ctx.violation("R5.5", f"{qual}:element", DS, fi.node, f"{qual} does not yield the enumerated item")
-            d = fi.node.args.defaults
-            if not (len(d) == 1 and isinstance(d[0], ast.Constant) and d[0].value is False):
-                ctx.violation("R5.5", f"{qual}:default", DS, fi.node, f"{qual}: default of `masked` is not False (analyses rely on it to exclude masked points)")
-            else:
-                ctx.ok()
-        vals = set(preds.values())
-        if len(vals) != 1:
-            ctx.violation("R5.5", "getters:predicate-mismatch", DS, model.fi(DS, "DataSet.get_impedances").node,
-                          f"get_frequencies and get_impedances filter with different predicates: {preds}")
+        # ---------------- R5.5 ---------------------------------------------------------------
+        preds = {}
+        flags: Dict[str, Set[str]] = {}
+        ds_methods = {n: m.node for n, m in model.classes[f"{DS}:DataSet"].methods.items()}
+
+        def self_reads(fn_node, seen=None) -> Set[str]:
+            seen = seen if seen is not None else set()
+            out: Set[str] = set()
+            for x in ast.walk(fn_node):
+                if isinstance(x, ast.Attribute) and dotted(x.value) == "self":
+                    if x.attr in ds_methods and x.attr not in seen:
+                        seen.add(x.attr)
+                        out |= self_reads(ds_methods[x.attr], seen)
+                    elif x.attr not in ds_methods:
+                        out.add(x.attr)
+            return out
+        core = {"_frequencies", "_impedances", "_mask"}
+        getters = (("DataSet.get_frequencies", "_frequencies"), ("DataSet.get_impedances", "_impedances"))
+        reads = {q: self_reads(model.fi(DS, q).node) for q, _ in getters}
+        if all(r <= core for r in reads.values()):
+            # the getters depend on the mask only through look-ups: interpret them (AST, sa.miniinterp) on every mask over up to
+            # four points (each key absent / False / True) and both selections, and compare with the specification
+            from itertools import product
+            from ..miniinterp import InterpRaise, Mini, Obj
+            from ..nplite import NP_STUBS, NArr
+            stubs = dict(NP_STUBS)
+            stubs.update({"_is_boolean": lambda x: isinstance(x, bool), "NDArray": None})
+            for qual, attr in getters:
+                fi = model.fi(DS, qual)
+                d = fi.node.args.defaults
+                ctx.instance("R5.5", f"{qual}: default of `masked` is False")
+                if not (len(d) == 1 and isinstance(d[0], ast.Constant) and d[0].value is False):
+                    ctx.violation("R5.5", f"{qual}:default", DS, fi.node, f"{qual}: default of `masked` is not False (analyses rely on it to exclude masked points)")
+                else:
+                    ctx.ok()
+                witness = None
+                n_w = 0
+                for n in range(0, 5):
+                    for combo in product(("absent", False, True), repeat=n):
+                        mask = {i: v for i, v in enumerate(combo) if v != "absent"}
+                        for masked in (None, False, True):
+                            n_w += 1
+                            me = Obj(Mini(stubs), ds_methods, {"_frequencies": NArr(("f", i) for i in range(n)), "_impedances": NArr(("Z", i) for i in range(n)), "_mask": dict(mask)})
+                            try:
+                                got = list(Mini(stubs).call_function(fi.node, {"self": me, "masked": masked}))
+                            except InterpRaise as e:
+                                got = e.kind
+                            tag = "f" if attr == "_frequencies" else "Z"
+                            want = [(tag, i) for i in range(n) if masked is None or mask.get(i, False) == masked]
+                            if got != want and witness is None:
+                                witness = (mask, masked, got, want)
+                ctx.instance("R5.5", f"{qual}: selection on all {n_w} (mask, masked) combinations over 0..4 points")
+                if witness is None:
+                    ctx.ok()
+                else:
+                    mask, masked, got, want = witness
+                    ctx.violation("R5.5", "getters:predicate-mismatch" if isinstance(got, list) else f"{qual}:raises", DS, fi.node,
+                                  f"{qual}(masked={masked}) with mask {mask} returns the points {got} instead of {want}: frequencies and impedances no longer select the same points")
+            flags = {q: set() for q, _ in getters}
         else:
-            p = next(iter(vals))
-            if p in ("self._mask.get(<i>, False) == masked",) or (p.startswith("self.") and p.endswith(" == masked")):
-                ctx.ok()  # x == True / x == False partition the index set
+            for qual, attr in getters:
+                fi = model.fi(DS, qual)
+                shape = _filter_shape(fi.node, attr)
+                if shape is None:
+                    raise AnalysisError(f"{qual}: filter expression not recognised (neither a comprehension over enumerate(self.{attr}) nor boolean indexing of self.{attr})")
+                preds[qual], flags[qual], src_ok, elt_ok = shape
+                ctx.instance("R5.5", f"{qual}: predicate {preds[qual]}")
+                if not src_ok:
+                    ctx.violation("R5.5", f"{qual}:source", DS, fi.node, f"{qual} does not filter self.{attr}")
+                if not elt_ok:
+                    ctx.violation("R5.5", f"{qual}:element", DS, fi.node, f"{qual} does not yield the enumerated item")
+                d = fi.node.args.defaults
+                if not (len(d) == 1 and isinstance(d[0], ast.Constant) and d[0].value is False):
+                    ctx.violation("R5.5", f"{qual}:default", DS, fi.node, f"{qual}: default of `masked` is not False (analyses rely on it to exclude masked points)")
+                else:
+                    ctx.ok()
+            vals = set(preds.values())
+            if len(vals) != 1:
+                ctx.violation("R5.5", "getters:predicate-mismatch", DS, model.fi(DS, "DataSet.get_impedances").node,
+                              f"get_frequencies and get_impedances filter with different predicates: {preds}")
             else:
-                raise AnalysisError(f"R5.5: filter predicate {p!r} not recognised as a two-way partition")
-    # derived mask state must be refreshed on every path that changes the mask
-    derived = set().union(*flags.values()) - {"_mask"}
-    for dattr in sorted(derived):
-        from ..cfg import CFG
-        ds_cls = model.classes[f"{DS}:DataSet"]
-        for mname, mfi in ds_cls.methods.items():
-            def writes(a, attr_):
-                for x in ast.walk(a):
-                    if isinstance(x, (ast.Assign, ast.AnnAssign, ast.AugAssign)):
-                        tg = x.targets if isinstance(x, ast.Assign) else [x.target]
-                        for t_ in tg:
-                            base = t_.value if isinstance(t_, ast.Subscript) else t_
-                            if isinstance(base, ast.Attribute) and base.attr == attr_ and dotted(base.value) == "self" and (not isinstance(x, ast.AnnAssign) or x.value is not None):
-                                return True
-                    if isinstance(x, ast.Call) and isinstance(x.func, ast.Attribute) and x.func.attr in ("update", "clear", "pop", "setdefault") \
-                            and isinstance(x.func.value, ast.Attribute) and x.func.value.attr == attr_ and dotted(x.func.value.value) == "self":
-                        return True
-                return False
-            from ..cfg import own_expr
-            cfg = CFG(mfi.node)
-            wnodes = [nd for nd in cfg.nodes if own_expr(nd) is not None and writes(own_expr(nd), "_mask")]
-            if not wnodes:
-                continue
-            ctx.instance("R5.5", f"DataSet.{mname}: every change of _mask is followed by a refresh of {dattr}")
-            blocked = {nd.id for nd in cfg.nodes if own_expr(nd) is not None and (writes(own_expr(nd), dattr) or
-                       any(isinstance(c_, ast.Call) and dotted(c_.func) == "self.set_mask" for c_ in ast.walk(own_expr(nd))))}
-            stale = None
-            for wn in wnodes:
-                if wn.id in blocked:
+                p = next(iter(vals))
+                if p in ("self._mask.get(<i>, False) == masked",) or (p.startswith("self.") and p.endswith(" == masked")):
+                    ctx.ok()  # x == True / x == False partition the index set
+                else:
+                    raise AnalysisError(f"R5.5: filter predicate {p!r} not recognised as a two-way partition")
+        # derived mask state must be refreshed on every path that changes the mask
+        derived = set().union(*flags.values()) - {"_mask"}
+        for dattr in sorted(derived):
+            from ..cfg import CFG
+            ds_cls = model.classes[f"{DS}:DataSet"]
+            for mname, mfi in ds_cls.methods.items():
+                def writes(a, attr_):
+                    for x in ast.walk(a):
+                        if isinstance(x, (ast.Assign, ast.AnnAssign, ast.AugAssign)):
+                            tg = x.targets if isinstance(x, ast.Assign) else [x.target]
+                            for t_ in tg:
+                                base = t_.value if isinstance(t_, ast.Subscript) else t_
+                                if isinstance(base, ast.Attribute) and base.attr == attr_ and dotted(base.value) == "self" and (not isinstance(x, ast.AnnAssign) or x.value is not None):
+                                    return True
+                        if isinstance(x, ast.Call) and isinstance(x.func, ast.Attribute) and x.func.attr in ("update", "clear", "pop", "setdefault") \
+                                and isinstance(x.func.value, ast.Attribute) and x.func.value.attr == attr_ and dotted(x.func.value.value) == "self":
+                            return True
+                    return False
+                from ..cfg import own_expr
+                cfg = CFG(mfi.node)
+                wnodes = [nd for nd in cfg.nodes if own_expr(nd) is not None and writes(own_expr(nd), "_mask")]
+                if not wnodes:
                     continue
-                reach = cfg.reachable_from(wn.id, blocked - {wn.id})
-                if cfg.exit.id in reach:
-                    stale = wn
-            if stale is not None:
-                ctx.violation("R5.5", f"DataSet.{mname}:stale-{dattr}", DS, stale.ast,
-                              f"DataSet.{mname} changes _mask on a path that returns without refreshing {dattr}, which the masked/unmasked views read: "
-                              f"get_mask()/to_dict() and the filtered views disagree afterwards")
+                ctx.instance("R5.5", f"DataSet.{mname}: every change of _mask is followed by a refresh of {dattr}")
+                blocked = {nd.id for nd in cfg.nodes if own_expr(nd) is not None and (writes(own_expr(nd), dattr) or
+                           any(isinstance(c_, ast.Call) and dotted(c_.func) == "self.set_mask" for c_ in ast.walk(own_expr(nd))))}
+                stale = None
+                for wn in wnodes:
+                    if wn.id in blocked:
+                        continue
+                    reach = cfg.reachable_from(wn.id, blocked - {wn.id})
+                    if cfg.exit.id in reach:
+                        stale = wn
+                if stale is not None:
+                    ctx.violation("R5.5", f"DataSet.{mname}:stale-{dattr}", DS, stale.ast,
+                                  f"DataSet.{mname} changes _mask on a path that returns without refreshing {dattr}, which the masked/unmasked views read: "
+                                  f"get_mask()/to_dict() and the filtered views disagree afterwards")
+                else:
+                    ctx.ok()
+        for qual in ("DataSet.get_magnitudes", "DataSet.get_phases", "DataSet.get_num_points", "DataSet.get_nyquist_data",
+                     "DataSet.get_bode_data", "DataSet.to_dataframe"):
+            fi = model.fi(DS, qual)
+            ctx.instance("R5.5", f"{qual} goes through the getters")
+            direct = [n for n in walk_ordered(fi.node) if isinstance(n, ast.Attribute) and n.attr in STATE and dotted(n.value) == "self"]
+            passes = all(any(k.arg == "masked" and norm(k.value) == "masked" for k in c.keywords)
+                         for c in calls_in(fi.node) if dotted(c.func) in ("self.get_impedances", "self.get_frequencies"))
+            if direct or not passes:
+                ctx.violation("R5.5", f"{qual}:bypass", DS, fi.node,
+                              f"{qual} must obtain its data through get_frequencies/get_impedances(masked=masked)")
             else:
                 ctx.ok()
-    for qual in ("DataSet.get_magnitudes", "DataSet.get_phases", "DataSet.get_num_points", "DataSet.get_nyquist_data",
-                 "DataSet.get_bode_data", "DataSet.to_dataframe"):
-        fi = model.fi(DS, qual)
-        ctx.instance("R5.5", f"{qual} goes through the getters")
-        direct = [n for n in walk_ordered(fi.node) if isinstance(n, ast.Attribute) and n.attr in STATE and dotted(n.value) == "self"]
-        passes = all(any(k.arg == "masked" and norm(k.value) == "masked" for k in c.keywords)
-                     for c in calls_in(fi.node) if dotted(c.func) in ("self.get_impedances", "self.get_frequencies"))
-        if direct or not passes:
-            ctx.violation("R5.5", f"{qual}:bypass", DS, fi.node,
-                          f"{qual} must obtain its data through get_frequencies/get_impedances(masked=masked)")
-        else:
-            ctx.ok()
+
 
     # ---------------- R5.6 ---------------------------------------------------------------
     td = model.fi(DS, "DataSet.to_dict")
